@@ -7,7 +7,7 @@ from ..consteval import UNKNOWN, fold_in
 from ..dataflow import must_facts
 from ..locks import regions
 from ..mutate import B, M
-from ..symexec import paths_of
+from ..symexec import paths_of, subst
 
 PROP = 'C06'
 ME = 'cflib/crazyflie/mem/__init__.py'
@@ -207,8 +207,9 @@ def check(ctx):
             ns = len(p.calls(lambda c: norm(c.func) == okcb))
             nf = len(p.calls(lambda c: norm(c.func) == failcb))
             conds = p.cond_texts(orig=True)
-            st0 = fact_key('status == 0', True) in p.fact_keys()
-            stn = fact_key('status == 0', False) in p.fact_keys()
+            svs = {'status', norm(subst(ast.Name(id='status', ctx=ast.Load()), p.env))}      # the status byte, by name or by what it was unpacked from
+            st0 = any(fact_key('%s == 0' % sv, True) in p.fact_keys() for sv in svs)
+            stn = any(fact_key('%s == 0' % sv, False) in p.fact_keys() for sv in svs)
             sig = (npop, ns, nf, st0, stn)
             if sig in seen:
                 continue
@@ -225,7 +226,7 @@ def check(ctx):
         for p in ps:
             if p.outcome[0] not in ('fall', 'return') or not p.calls(lambda c: norm(c.func) == okcb):
                 continue
-            fs = [fct for t_, pol_, o_ in p.conds if isinstance(t_, ast.expr) for fct in _implied(t_, pol_)]
+            fs = p.facts_through_defs()
             truthy = [fct for fct in fs if fct.pol and ((isinstance(fct.node, ast.Call) and method_call(fct.node, donefn)) or
                                                      (fct.op in ('==', 'is') and 'True' in (norm(fct.left), norm(fct.right)) and donefn in fct.text))]
             verdicts.add(bool(truthy))
